@@ -111,9 +111,11 @@ class FnCFG(object):
                     stack.append((s, path + [s]))
         return None
 
-    def reached_from_entry_avoiding(self, target, avoid):
+    def reached_from_entry_avoiding(self, target, avoid, skip_edges=()):
         """Is there a path from function entry to `target` touching no position
-        in `avoid` before reaching it?  Witness list of block ids or None."""
+        in `avoid` before reaching it (and using no edge (block, successor index) of skip_edges)?
+        Witness list of block ids or None."""
+        skip_edges = set(skip_edges)
         avoid_by_block = {}
         for (b, i) in avoid:
             avoid_by_block.setdefault(b, []).append(i)
@@ -133,8 +135,8 @@ class FnCFG(object):
                 continue
             if b in avoid_by_block:
                 continue
-            for s in self.succs(b):
-                if s not in seen:
+            for k_, s in enumerate(self.blocks[b]["s"]):
+                if s is not None and (b, k_) not in skip_edges and s not in seen:
                     stack.append((s, path + [s]))
         return None
 
@@ -171,6 +173,40 @@ class FnCFG(object):
                 return True
             stack.extend(self.succs(x))
         return False
+
+    def first_hit(self, start, targets, kills):
+        """a position of `targets` that some path from just after `start` reaches before any position of `kills`, or None"""
+        tb, kb = {}, {}
+        for (b, i) in targets:
+            tb.setdefault(b, []).append(i)
+        for (b, i) in kills:
+            kb.setdefault(b, []).append(i)
+
+        def scan(b, lo):
+            """('hit', pos) / ('kill',) / ('through',) for block b from element index lo"""
+            ev = sorted([(i, "t") for i in tb.get(b, []) if i >= lo] + [(i, "k") for i in kb.get(b, []) if i >= lo])
+            if not ev:
+                return ("through",)
+            return ("hit", (b, ev[0][0])) if ev[0][1] == "t" else ("kill",)
+        r = scan(start[0], start[1] + 1)
+        if r[0] == "hit":
+            return r[1]
+        if r[0] == "kill":
+            return None
+        seen = set()
+        stack = list(self.succs(start[0]))
+        while stack:
+            b = stack.pop()
+            if b in seen:
+                continue
+            seen.add(b)
+            r = scan(b, 0)
+            if r[0] == "hit":
+                return r[1]
+            if r[0] == "kill":
+                continue
+            stack.extend(self.succs(b))
+        return None
 
     # -- guards -------------------------------------------------------------------
     def edge_dominance(self):
